@@ -164,31 +164,60 @@ fn stream_ref_client_real_server(cx: &mut Ctx, rng: &mut Rng, target: &Addr, now
     let mut addr: Option<Addr> = None;
     let mut first_kind_ok = true;
     let mut n_items = 0;
-    for w in c2s {
+    // a peer may put a message on the wire in several writes: half of the cases deliver every message in pieces
+    // (for Shadowsocks 2022 never inside salt + identity headers + fixed header, which the protocol itself wants in one read)
+    let in_pieces = rng.chance(1, 2);
+    let exempt = match cfg.proto {
+        Proto::Ss(m) if m.is_2022() => m.key_len() + if cfg.client_user.is_some() { 16 } else { 0 } + 11 + 16,
+        _ => 0,
+    };
+    for (wi, w) in c2s.iter().enumerate() {
         let wire = client.write(w, rng);
         want.extend_from_slice(w);
-        buf.extend_from_slice(&wire);
-        let d = drain_server(server.as_mut(), &mut buf, true);
-        for it in d.items {
-            match &it {
-                SrvItem::Connect(_, a) => {
-                    if n_items != 0 {
-                        first_kind_ok = false;
-                    }
-                    addr = Some(a.clone());
+        let mut cuts: Vec<usize> = Vec::new();
+        if in_pieces && wire.len() > 1 {
+            let lo = if wi == 0 { exempt.min(wire.len()) } else { 1 };
+            for _ in 0..rng.range(1, 3) {
+                if lo < wire.len() {
+                    cuts.push(rng.range(lo.max(1), wire.len() - 1));
                 }
-                SrvItem::Tcp(_) => {
-                    if n_items == 0 {
-                        first_kind_ok = false;
-                    }
-                }
-                SrvItem::Udp(..) => first_kind_ok = false,
             }
-            n_items += 1;
-            got.extend_from_slice(it.data());
+            if wi == 0 && exempt > 0 && exempt < wire.len() && rng.chance(1, 2) {
+                cuts.push(exempt); // exactly behind the fixed header
+            }
+            cuts.sort();
+            cuts.dedup();
         }
-        if let Some(f) = d.stop {
-            return cx.viol("ref-client->real-server", &fail_sym(&f), json!({"wire": hex_short(&wire), "decoded_so_far": got.len()}));
+        cuts.push(wire.len());
+        let mut start = 0;
+        for c in cuts {
+            buf.extend_from_slice(&wire[start..c]);
+            start = c;
+            let d = drain_server(server.as_mut(), &mut buf, true);
+            for it in d.items {
+                match &it {
+                    SrvItem::Connect(_, a) => {
+                        if n_items != 0 {
+                            first_kind_ok = false;
+                        }
+                        addr = Some(a.clone());
+                    }
+                    SrvItem::Tcp(_) => {
+                        if n_items == 0 {
+                            first_kind_ok = false;
+                        }
+                    }
+                    SrvItem::Udp(..) => first_kind_ok = false,
+                }
+                n_items += 1;
+                got.extend_from_slice(it.data());
+            }
+            if let Some(f) = d.stop {
+                return cx.viol(if in_pieces { "ref-client->real-server/in-pieces" } else { "ref-client->real-server" }, &fail_sym(&f), json!({"wire": hex_short(&wire), "decoded_so_far": got.len(), "delivered_up_to": c}));
+            }
+        }
+        if in_pieces {
+            cx.rep.mon("messages_delivered_in_pieces", 1);
         }
     }
     cx.nontrivial = true;
